@@ -41,6 +41,8 @@ var grammarLines = []string{
 	"||example.org^$dnsrewrite=NOERROR;SRV;30 60 8080", "||example.org^$dnsrewrite=NOERROR;SRV;30 60", "||example.org^$dnsrewrite=NOERROR;SRV;1 2 3 a.b extra",
 	"||example.org^$dnsrewrite=NOERROR;MX;10", "||example.org^$dnsrewrite=NOERROR;MX;", "||example.org^$dnsrewrite=NOERROR;SVCB;1", "||example.org^$dnsrewrite=NOERROR;HTTPS;1 .",
 	"||example.org^$dnsrewrite=NOERROR;HTTPS;1 . alpn", "||example.org^$dnsrewrite=NOERROR;PTR;", "||example.org^$dnsrewrite=NOERROR;A;", "||example.org^$dnsrewrite=;;;",
+	"||example.org^$client='", "||example.org^$client=~\"", "||example.org^$client=''", "||example.org^$client='a", "||example.org^$client=|", "||example.org^$ctag=~",
+	"||example.org^$domain=~", "||example.org^$denyallow=|", "||example.org^$dnstype=~", "||example.org^$client=~'", "$client='",
 	"*$domain=co.*,script", "||example.org^$denyallow=edu.*", "co.*##.y", "edu.*,~act.edu.*##.z", "/x$domain=uk.*|co.*", "[Adblock Plus 2.0]", "||пример.рф^", "xn--e1afmkfd.xn--p1ai", "||example.org^$popup",
 }
 
@@ -178,7 +180,11 @@ func cmdDriveLines(args []string) error {
 			// comments and blank lines are inert: the same list behind two lines of noise answers the same
 			ne := lineEvent{Ev: "noise", Outcome: "ok", Line: []int{}, Trimmed: []int{}, Text: []int{}}
 			var noisy string
-			if pv2 := safeCall(func() { noisy = answers("! a comment in front\n\n" + text) }); pv2 != "" {
+			noise := "! a comment in front\n\n"
+			if rnd.Intn(5) == 0 {
+				noise = strings.Repeat("! "+strings.Repeat("-", 1000)+"\r\n\n", 70) + noise // 70 KB of it
+			}
+			if pv2 := safeCall(func() { noisy = answers(noise + text) }); pv2 != "" {
 				ne.Outcome, ne.Detail = "panic", pv2
 			} else if noisy != plain {
 				ne.Outcome = "differs"
